@@ -47,6 +47,9 @@ pub(crate) struct SessionConnectionActorX<S: ZmtpStdStream> {
   write_half: Option<S::WriteHalf>,
   /// Temporary read buffer used only during the handshake loop.
   handshake_read_buf: BytesMut,
+  /// Messages the engine decoded from the same read as the peer's last handshake
+  /// bytes; handed to the ingress buffer once the handshake loop is left.
+  handshake_early_messages: Vec<FrameBatch>,
 
   core_pipe_manager: CorePipeManagerX,
 
@@ -137,6 +140,7 @@ where
       read_half: Some(read_half),
       write_half: Some(write_half),
       handshake_read_buf: BytesMut::with_capacity(GREETING_LENGTH * 4),
+      handshake_early_messages: Vec::new(),
       core_pipe_manager: CorePipeManagerX::new(),
       command_mailbox_receiver,
       system_event_receiver,
@@ -260,6 +264,7 @@ where
 
       self.read_half = Some(hs_read_half);
     }
+    ingress_buffer.extend(self.handshake_early_messages.drain(..));
 
     // Handshake done — wait for ScaInitializePipes before entering Operational.
     // ScaInitializePipes may already be in the mailbox (sent by SocketCore as soon
@@ -918,7 +923,10 @@ where
           self.set_fatal_error(e).await;
           return;
         }
-        AppAction::DeliverMessage(_) => {}
+        AppAction::DeliverMessage(batch) => {
+          // Data frames that shared a read with the end of the handshake: keep them.
+          self.handshake_early_messages.push(batch);
+        }
       }
     }
   }
